@@ -37,5 +37,5 @@ def run(repo, res, tier):
     common.run_traversals(repo, res, only={"check::specialize_nonterminals", "check::resolve_nonterminals"})
     res.floor("SK-CMD", res.count("SK-CMD"), 17)
     res.floor("SK-MATCHFN", res.count("SK-MATCHFN"), 6)
-    res.floor("FF", res.count("FF"), 9)
+    res.floor("FF", res.count("FF"), 3)  # one arm per shell today (4 x 4 fields); a single shared constructor is 4 instances
     res.floor("TC", res.count("TC"), 7)
